@@ -324,3 +324,34 @@ Proof. reflexivity. Qed.
 Example precision_8_outside_float_assumption :
   fmt_duration_with (Some 8) None 8639999999999999999999999 = FInexact.
 Proof. reflexivity. Qed.
+
+(** ** Glue for C05: a duration never prints "NaN" or "inf" *)
+
+Lemma spec_unit_suffix_letters : forall sig p,
+  In (snd (spec_unit sig p)) (map snd spec_units) /\
+  ~ In 78 (snd (spec_unit sig p)) /\ ~ In 102 (snd (spec_unit sig p)).
+Proof.
+  intros. rewrite spec_unit_by_index.
+  set (i := if (scale_index p =? 0) && (3 <? sig) then 1 else scale_index p).
+  assert (Hi : i = 0 \/ i = 1 \/ i = 2 \/ i = 3 \/ i = 4 \/ i = 5 \/ i = 6 \/ i = 7).
+  { unfold i. destruct (scale_index_cases p) as [[H ->]|[[H ->]|[[H ->]|[[H ->]|[[H ->]|[[H ->]|[[H ->]|[H ->]]]]]]]];
+    cbn [N.eqb Pos.eqb andb]; try lia. destruct (3 <? sig); lia. }
+  destruct Hi as [->|[->|[->|[->|[->|[->|[->| ->]]]]]]]; vm_compute;
+  (split; [tauto|]); split; intros HH;
+  repeat (destruct HH as [HH|HH]; [discriminate HH|]); exact HH.
+Qed.
+
+Lemma duration_prints_no_nan : forall p,
+  exists num suffix,
+    fmt_duration p = FOk (num ++ [ch_space] ++ suffix) /\
+    numeral_chars num /\ In suffix (map snd spec_units) /\
+    ~ contains nan_str (num ++ [ch_space] ++ suffix) /\
+    ~ contains inf_str (num ++ [ch_space] ++ suffix).
+Proof.
+  intros p. pose proof (fmt_duration_spec p) as H. unfold spec_duration_string in H.
+  pose proof (spec_unit_suffix_letters 4 p) as [Hin [H78 H102]].
+  destruct (spec_unit 4 p) as [u suffix]. cbn [snd fill_to] in *.
+  exists (trunc_numeral p u 4), suffix. split; [exact H|].
+  split; [apply trunc_numeral_chars|]. split; [exact Hin|].
+  apply no_nan_inf; [apply trunc_numeral_chars|exact H78|exact H102].
+Qed.
